@@ -74,6 +74,7 @@ Definition run_case (x : sexp) : sexp :=
       match args with [v] => run_front v | _ => bad end
     else if tag_is "run" cmd then
       match args with [nc; v] => run_pipeline nc v | _ => bad end
+    else if tag_is "doc_sections" cmd then run_doc_sections args
     else if tag_is "doc_type" cmd then
       match args with [n; e] => run_doc_type n e | _ => bad end
     else if tag_is "type_string" cmd then
